@@ -56,11 +56,11 @@ REF = '#REF!'
 TLC_WORKERS = 4
 # formula area: far from every rectangle a vector can name
 AREA_COL0, AREA_COLS, AREA_ROW0 = 20, 100, 40
-CHUNK = 2500               # formula cells per workbook
-BUDGET = {'quick': dict(workers=4, offset_per_stratum=2, indirect_per_stratum=1,
-                        open_texts=400),
-          'thorough': dict(workers=8, offset_per_stratum=14, indirect_per_stratum=8,
-                           open_texts=3000)}
+CHUNK = 1500               # formula cells per workbook
+BUDGET = {'quick': dict(workers=4, coarse=True, offset_per_stratum=2, indirect_per_stratum=2,
+                        open_texts=300),
+          'thorough': dict(workers=8, coarse=False, offset_per_stratum=14,
+                           indirect_per_stratum=8, open_texts=3000)}
 
 
 def T(codes):
@@ -125,13 +125,15 @@ CATALOGUE = [
     ('=', '{R}={W}', ONE, False),
     ('>', '{R}>1', ONE, False),
     ('* range', 'SUM({R}*2)', ANY, False),
-    ('CELL contents', 'CELL("contents",{R})', ANY, False),
+    ('CELL contents', 'CELL("contents",{R})', ONE, False),
     ('IF', 'IF(TRUE,{R})', ANY, False),
     ('OFFSET of', 'SUM(OFFSET({R},1,0))', ANY, False),
     ('ROW of OFFSET of', 'ROW(OFFSET({R},1,1))', ANY, False),
 ]
+# with the arguments in cells every vector runs SUM only
+CORE_CELL = ('SUM',)
 # a result that is #REF!: the written form is the literal #REF!
-ERR_CORE = ('bare', 'SUM', 'ROW')
+ERR_CORE = ('bare', 'SUM')
 ERR_FULL = ('bare', 'SUM', 'ROW', 'COLUMN', 'AVERAGE', 'COUNT', 'INDEX first', 'SUMPRODUCT 2nd',
             'MATCH', 'ISERROR', 'ISBLANK', 'ISNUMBER', 'IFERROR', '+', '&', 'CELL contents',
             'OFFSET of')
@@ -144,7 +146,7 @@ for _n in ('SUM', 'AVERAGE', 'MIN', 'MAX', 'COUNT', 'SUMPRODUCT', 'SUMPRODUCT 2n
 for _n in ('+', '+ left', '&', '& left', 'unary -', '=', '>', '* range'):
     HINT[_n] = 'X02_2'
 for _n in ('OFFSET of', 'ROW of OFFSET of'):
-    HINT[_n] = 'X02_4 (and X02_1)'
+    HINT[_n] = 'X02_4'
 
 
 def applies(shape, nr, nc):
@@ -177,6 +179,10 @@ def grid_values(layout, env):
                 k += 1
         cells[(sheet, GRID_COLS, GRID_ROWS)] = -3 * mul
         cells[(sheet, GRID_COLS - 1, GRID_ROWS)] = 0.5 * mul
+        if env == 'O':
+            # the workbook of the "open" texts (whole rows / columns among them)
+            # has nothing in the far corner: the used range stays small
+            continue
         for i, (c, r) in enumerate(((MAX_COL - 1, MAX_ROW - 1), (MAX_COL, MAX_ROW - 1),
                                     (MAX_COL - 1, MAX_ROW), (MAX_COL, MAX_ROW))):
             cells[(sheet, c, r)] = mul * 2 ** (48 + i)
@@ -280,17 +286,20 @@ class Vec:
                 f'{n}={v!r}' for n, v in zip(names, vals) if v is not None)
         return '=' + self.expr(style)
 
-    def stratum(self):
+    def stratum(self, coarse):
+        """the class of vectors from which the full catalogue draws its sample"""
         if self.m == 'offset':
             if self.rect:
                 shape = f'{min(self.nr, 3)}x{min(self.nc, 3)}'
             else:
                 shape = 'zero' if 0 in (self.h, self.w) else 'off sheet'
-            return ('OFFSET', shape, self.h is not None, self.w is not None, self.sheet,
-                    self.base[0] > 100)
+            key = ('OFFSET', shape, self.h is not None, self.w is not None)
+            return key if coarse else key + (self.sheet, self.base[0] > 100)
         shape = f'{min(self.nr, 3)}x{min(self.nc, 3)}' if self.rect else self.kind
-        return (self.m, shape, self.sheet, self.home, bool(self.rect) and self.rect[0] > 100,
-                '$' in self.text, self.text != self.text.upper(), "'" in self.text)
+        key = (self.m, shape, self.sheet, self.home)
+        return key if coarse else key + (
+            bool(self.rect) and self.rect[0] > 100, '$' in self.text,
+            self.text != self.text.upper(), "'" in self.text)
 
 
 # ---------------------------------------------------------------------------
@@ -323,11 +332,20 @@ def lookup_values(vec, values):
                 vh=literal_of(values.get((sh, c2, r1))))
 
 
-def consumers_of(vec, full):
+def consumers_of(vec, full, style):
+    if vec.kind == 'open':
+        return [c for c in CATALOGUE if c[0] == 'bare']
+    if style == 'true':
+        return [c for c in CATALOGUE if c[0] == 'bare']
+    if not full and style == 'cell':
+        return [c for c in CATALOGUE if c[0] in CORE_CELL]
     if vec.kind != 'ref':
         names = ERR_FULL if full else ERR_CORE
+        if not full and vec.m == 'offset' and 0 in (vec.h, vec.w):
+            names = ('bare',)        # a height or width of 0: one path of the code
         return [c for c in CATALOGUE if c[0] in names]
-    return [c for c in CATALOGUE if (full or c[3]) and applies(c[2], vec.nr, vec.nc)]
+    return [c for c in CATALOGUE if (full or c[3]) and applies(c[2], vec.nr, vec.nc)
+            and (full or c[0] != 'INDEX last' or vec.nr * vec.nc > 1)]
 
 
 class Workbook:
@@ -366,17 +384,15 @@ class Workbook:
                 exprs[style] = vec.expr('cell', params)
             else:
                 exprs[style] = vec.expr(style)
-        for name, template, _shape, _core in consumers_of(vec, full):
-            wf = '=' + template.format(R=wref, W=wref, **fills)
-            if (home, wf) not in self.written:
-                self.written[(home, wf)] = self.place(home, wf)
-            top = None
-            if name == 'bare' and vec.rect:
-                top = (vec.result_sheet(), f'{LET(vec.rect[0])}{vec.rect[1]}')
-                self.direct[top] = True
-            for style, expr in exprs.items():
-                if style == 'true' and name != 'bare':
-                    continue
+        for style, expr in exprs.items():
+            for name, template, _shape, _core in consumers_of(vec, full, style):
+                wf = '=' + template.format(R=wref, W=wref, **fills)
+                if (home, wf) not in self.written:
+                    self.written[(home, wf)] = self.place(home, wf)
+                top = None
+                if name == 'bare' and vec.rect:
+                    top = (vec.result_sheet(), f'{LET(vec.rect[0])}{vec.rect[1]}')
+                    self.direct[top] = True
                 cf = '=' + template.format(R=expr, W=wref, **fills)
                 addr = self.place(home, cf)
                 key = len(self.computed)
@@ -563,7 +579,7 @@ class Binder:
         for i, x in enumerate(vecs):
             if x.kind == 'open':
                 continue
-            strata.setdefault(x.stratum(), []).append(i)
+            strata.setdefault(x.stratum(self.budget['coarse']), []).append(i)
         chosen = set()
         for key in sorted(strata, key=repr):
             k = self.budget['offset_per_stratum' if key[0] == 'OFFSET'
@@ -590,7 +606,7 @@ class Binder:
         for i, x in enumerate(vecs):
             if x.kind == 'open':
                 if i in opens:
-                    book('V').add(i, x, False, ['lit'])
+                    book('O').add(i, x, False, ['lit'])
                 continue
             full = i in chosen
             styles = ['lit', 'cell'] + (['true'] if x.m != 'offset' and full else [])
@@ -598,7 +614,7 @@ class Binder:
                 styles = ['lit']
             book('V').add(i, x, full, styles)
             if full:
-                book('E').add(i, x, True, ['lit', 'cell'])
+                book('E').add(i, x, True, ['lit'] if self.budget['coarse'] else ['lit', 'cell'])
         return books, nstrata
 
     def fail(self, vec, name, style, env, symptom, desc, case):
@@ -607,7 +623,8 @@ class Binder:
         if self.failed[group] <= 2:
             hint = HINT.get(name)
             self.v.violation(desc + (f' [cf. pending_fixes/{hint}.diff]' if hint else ''),
-                             dict(case() if callable(case) else case, nth=self.failed[group]))
+                             dict(case() if callable(case) else case, symptom=symptom,
+                                  nth=self.failed[group]))
 
     def skip(self, name, reason):
         d = self.skipped.setdefault(name, {})
@@ -748,8 +765,14 @@ def run(tier, seed):
     if binder.failed:
         v.note('discrepancies by (function, consumer, symptom): ' + '; '.join(
             f'{fn} {name} {sym}: {n}' for (fn, name, sym), n in sorted(binder.failed.items())))
-        # the first of every group first: finish() writes out twenty
-        v.violations.sort(key=lambda x: x['case'].get('nth', 0))
+        # finish() writes out twenty: one of every kind of finding first, then
+        # the first of every (function, consumer, symptom) group
+        def kind(x):
+            return HINT.get(x['case']['consumer']) or x['case']['symptom']
+        seen = {}
+        for x in v.violations:
+            x['case']['turn'] = seen[kind(x)] = seen.get(kind(x), -1) + 1
+        v.violations.sort(key=lambda x: (x['case']['turn'], x['case'].get('nth', 0)))
     v.extra.update(
         exhaustive=True,
         bounds=dict(
